@@ -227,7 +227,7 @@ Proof.
   assert (Hfb : ok (mkbuf junk false) MAX_PATH) by (split; [exact Hj|reflexivity]).
   pose proof (join_safe cwd p MAX_PATH _ Hfb) as [[_ J1] _].
   split; [|exact J1].
-  unfold abspath.
+  unfold abspath, abspath_with.
   destruct (size <=? 1) eqn:S1; [apply safe_err; exact Hok|]. breflect.
   destruct (isabs p).
   - destruct (zlen p >? size - 1) eqn:G; [apply safe_err; exact Hok|]. breflect.
